@@ -21,7 +21,7 @@ CONSTANTS
  Aliases = {0}
  InPids = {1, 2}
  ExtraPids = {9}
- Rcs = {0, 128}
+ Rcs = {0, 128, 16}
  Cleans = {FALSE, TRUE}
  KAs = {0}
  ConnRMs = {99999}
@@ -52,3 +52,5 @@ CONSTANTS
  Restore = FALSE
  Regulate_ = FALSE
  OptFlips = {}
+ FreeIdSends = FALSE
+ Msgs = {"m1"}
